@@ -327,7 +327,7 @@ def translate_input_file(tree):
                 if st == "M":
                     conds.add("P")
                 else:
-                    fail(t, "test of a name that has been cleared")
+                    return "NEVER"    # the name has certainly been cleared: dead code
             elif isinstance(t, ast.Compare) and len(t.ops) == 1 and isinstance(t.ops[0], ast.IsNot) \
                     and D(t.comparators[0]) == E("None") and nm.D(t.left) == E("self._temp_path"):
                 if not has_temp_field:
@@ -429,7 +429,15 @@ def translate_input_file(tree):
                 if steps:
                     fail(st, "__exit__: steps before the try block would escape its finally part")
                 seen["try"] = True
+                before = dict(tn)
                 walk_exit(st.body, cond, "exit", False)
+                # an exception in the try part skips the rest of it: a name cleared there is only
+                # *maybe* cleared when the finally part runs
+                for k in tn:
+                    if tn[k] == "N" and before.get(k) == "T":
+                        if holders("M"):
+                            fail(st, "two names may hold the temporary's path")
+                        tn[k] = "M"
                 walk_exit(st.finalbody, cond, "final", False)
                 continue
             if isinstance(st, ast.Expr) and isinstance(st.value, ast.Call) and not st.value.keywords:
@@ -502,6 +510,7 @@ def translate_write_to_file(tree):
         has_wc = True
 
     WRITE_LINE = S('fh.write(line + "\\n")')
+    WRITE_LINE_R = S('fh.write(line.rstrip() + "\\n")')
     WRITE_BLANK = S('fh.write("\\n")')
     CHILD_ITER = E("self.cells._run_children_format_for_mcnp(self.data_inputs, self.mcnp_version)")
 
@@ -529,20 +538,29 @@ def translate_write_to_file(tree):
         return True
 
     def line_loop(st, iter_dump):
-        """for <line> in <iter>: fh.write(<line> + "\n")"""
+        """for <line> in <iter>: fh.write(<line> + "\n") -> "W";  ... <line>.rstrip() + "\n" -> "R";  else None"""
         if not (isinstance(st, ast.For) and isinstance(st.target, ast.Name) and not st.orelse
-                and nm.D(st.iter) == iter_dump and len(st.body) == 1):
-            return False
+                and nm.D(st.iter) == iter_dump):
+            return None
+        body = [x for x in st.body if not is_docstring(x)]
+        if len(body) != 1:
+            return None
         probe = Names()
         probe.env = dict(nm.env)
         probe.env[st.target.id] = "line"
-        if probe.D(st.body[0]) != WRITE_LINE:
-            return False
+        d = probe.D(body[0])
+        if d == WRITE_LINE:
+            kind = "W"
+        elif d == WRITE_LINE_R:
+            kind = "R"
+        else:
+            return None
         nm.bind(st.target, "line")
-        return True
+        return kind
 
-    def is_child_loop(st):
-        return line_loop(st, CHILD_ITER)
+    def child_loop(st):
+        k = line_loop(st, CHILD_ITER)
+        return {"W": "CH", "R": "CR"}.get(k)
 
     def obj_loop(st):
         """for obj in objects: ...  -> ostep letters"""
@@ -555,7 +573,7 @@ def translate_write_to_file(tree):
             elif isinstance(s, ast.If) and has_wc and nm.D(s.test) == E("warning_catch") and not s.orelse and no_io(s):
                 out += "N"
             elif line_loop(s, E("lines")):
-                out += "W"
+                out += line_loop(s, E("lines"))
             else:
                 fail(s, "object loop: unrecognised statement")
         return out
@@ -571,13 +589,13 @@ def translate_write_to_file(tree):
             elif isinstance(s, ast.If) and nm.D(s.test) == E("objects is self.data_inputs") and not s.orelse:
                 if sec == "D":
                     for c in s.body:
-                        if is_child_loop(c):
-                            steps.append("CH")
+                        if child_loop(c):
+                            steps.append(child_loop(c))
                         else:
                             fail(c, "data-block tail: unrecognised statement")
                 else:
                     for c in s.body:       # same statements, not executed for this section
-                        if not is_child_loop(c):
+                        if not child_loop(c):
                             fail(c, "data-block tail: unrecognised statement")
             elif isinstance(s, ast.If) and nm.D(s.test) == E("terminate") and not s.orelse \
                     and [nm.D(x) for x in s.body] == [WRITE_BLANK]:
@@ -611,8 +629,8 @@ def translate_write_to_file(tree):
             nm.bind(st.target.elts[1], "terminate")
             for sec, term in olist:
                 section_body(st.body, sec, term)
-        elif is_child_loop(st):
-            steps.append("CH")
+        elif child_loop(st):
+            steps.append(child_loop(st))
         elif nm.D(st) == WRITE_BLANK:
             steps.append("BL")
         else:
@@ -665,8 +683,9 @@ def coq_step(code):
     t = {"D": "Dest", "T": "Temp"}
     c = {"A": "Always", "O": "IfOk", "E": "IfErr", "P": "IfTemp"}
     s = {"M": "SMessage", "T": "STitle", "C": "SCells", "S": "SSurfaces", "D": "SData"}
-    o = {"F": "Format", "N": "Warn", "W": "WriteLines"}
-    simple = {"GE": "GuardExists", "GD": "GuardIsDir", "CM": "CopyMode", "CH": "Children", "BL": "Blank",
+    o = {"F": "Format", "N": "Warn", "W": "WriteLines false", "R": "WriteLines true"}
+    simple = {"GE": "GuardExists", "GD": "GuardIsDir", "CM": "CopyMode", "CH": "Children false", "CR": "Children true",
+              "BL": "Blank",
               "CL": "Close", "HW": "HandleWarnings"}
     if code in simple:
         return simple[code]
